@@ -749,8 +749,17 @@ def specToJson (st : SpecTable Rat) : Json :=
 def handle (req : Json) : R Json := do
   let src ← asSrc (← fld req "src")
   if (optFld req "op").isSome then
-    -- {"op": "domain", "src": …}: is the table inside the domain of the theorems?
-    return Json.mkObj [("in_domain", .bool (mdDomain src.omd && mdDomain src.smd))]
+    -- {"op": "domain", "src": …[, "csr", "csc"]}: is the table inside the domain of the theorems?  and, when the
+    -- layouts are given, does the model writer raise (and what)?
+    let merr : Json ← match optFld req "csr", optFld req "csc" with
+      | some a, some b => do
+          let csr ← asCS a
+          let csc ← asCS b
+          match toH5 Utf8.ident DateC.ident src "" (none : Option String) "" csr csc with
+          | .ok _ => pure Json.null
+          | .error e => pure (Json.str e.name)
+      | _, _ => pure Json.null
+    return Json.mkObj [("in_domain", .bool (mdDomain src.omd && mdDomain src.smd)), ("model_error", merr)]
   let raw ← asH5 (← fld req "raw")
   let genBy ← strF req "generated_by"
   let date ← optF asStr req "date"
